@@ -173,6 +173,36 @@ def agent_level(chk, prop, ncases, only=None):
     chk.stats["agent_level_runs"] = n
 
 
+def liveness_stream(chk, prop, ncases, only=None):
+    """what the API's guards (start / stop / edit) rely on: while the run's process is alive - steps executing OR handlers
+    still running after a failed / canceled outcome - its status socket says `running`. The real agent with scripted
+    executors; judged at every quiescent point. Reported under `prop` (C20: the API treats such a run as not running)."""
+    binp, out = common.build_harness("agentrun")
+    if not binp:
+        chk.oblige("harness-build:agentrun", False, out[-3000:]); return
+    rng = chk.rng
+    cases = []
+    for k in range(ncases):
+        c = gen_case(rng, 400000 + k, 4); c["id"] = "lv%d" % k
+        c["handlers"] = [rng.choice([1, 1, 2]) for _ in range(4)]       # handlers keep the process alive after the outcome is decided
+        cases.append(c)
+    if only is not None:
+        cases = [only]
+    results = run_harness(binp, cases)
+    n = 0
+    for c in cases:
+        r = results.get(c["id"])
+        if not r or r.get("panic") or r.get("hang"):
+            continue
+        n += 1; chk.evaluations += 1
+        for sig, detail in monitor(c, r):
+            if sig == "live-not-running-while-run-in-progress":
+                chk.violation(prop + ":live-run-not-reported-running-to-the-api-guards", "the run's process is alive (%s) but its status socket does not say running: start would be accepted, stop refused, an edit accepted" % detail,
+                              {"agent_case": dict(c, ops=r.get("ops"))})
+                break
+    chk.stats = dict(getattr(chk, "stats", None) or {}, liveness_runs=n)
+
+
 def real_kills(chk, nkills):
     hbin = os.path.join(common.BIN, "agentrun")
     binp, out = common.build_real_binary()
